@@ -25,7 +25,7 @@ EXPLANATION = (
 NOT_DECIDED = ["bytes identical to the embedded file; content type; pixel size", "that no image is invented (relationship parsing is value level)", "which image records a reader filters out or reuses by identity (orphan relationships, per-document caches keyed by object number)"]
 TRUSTED = ["may-raise table (listed in the explanation); string methods, slicing, dataclass constructors and the dimension sniffers are assumed not to raise",
            "CFG path enumeration (cap 4096 paths per loop body; a capped loop is residual)"]
-FLOORS = {"C14-JPEG": 4, "C14-PAIR": 12, "C14-BYTES": 20, "C14-VIEW": 6, "C14-REF": 1, "C14-CHAIN": 8}
+FLOORS = {"C14-JPEG": 8, "C14-PAIR": 12, "C14-BYTES": 20, "C14-VIEW": 6, "C14-REF": 1, "C14-CHAIN": 8}
 
 MAY_RAISE_CALLS = {"read_bytes", "get_image_data", "read_xml_root", "read_text", "read", "open_stream", "fromhex", "unpack", "unpack_from", "b64decode", "a2b_hex", "unhexlify", "decompress"}
 MAY_RAISE_FUNCS = {"int", "float", "bytes.fromhex", "struct.unpack", "struct.unpack_from", "base64.b64decode"}
@@ -369,6 +369,21 @@ def rule_jpeg(ctx: Ctx) -> RuleReport:
                 rep.ok({"scanner": f.key, "advance": norm(a)})
             else:
                 rep.fail(Finding("C14-JPEG", rel, fn, norm(a), f"the JPEG segment walk advances by `{norm(a.value)}` instead of marker (2) + segment length: it resumes inside the segment and can miss or mis-detect the frame header, so declared pixel sizes are not reported", line=a.lineno))
+        # the markers taken for a frame header are exactly SOF0..SOF15 without DHT (C4), JPG (C8) and DAC (CC)  [ITU-T T.81 table B.1]
+        SOF = {0xC0, 0xC1, 0xC2, 0xC3, 0xC5, 0xC6, 0xC7, 0xC9, 0xCA, 0xCB, 0xCD, 0xCE, 0xCF}
+        sets = []
+        for cmp_ in ast.walk(w):
+            if isinstance(cmp_, ast.Compare) and len(cmp_.ops) == 1 and isinstance(cmp_.ops[0], ast.In):
+                v = ctx.folder.fold(f.module, cmp_.comparators[0])
+                if isinstance(v, (tuple, list, set, frozenset)) and v and all(isinstance(x, int) for x in v) and 0xC0 in set(v):
+                    sets.append((cmp_, set(v)))
+        if len(sets) != 1:
+            raise AnalysisError(f"C14-JPEG: the start-of-frame marker test of {f.key} was not found")
+        if sets[0][1] == SOF:
+            rep.ok({"scanner": f.key, "sof_markers": "C0-C3, C5-C7, C9-CB, CD-CF"})
+        else:
+            extra, missing = sorted(sets[0][1] - SOF), sorted(SOF - sets[0][1])
+            rep.fail(Finding("C14-JPEG", rel, fn, "SOF markers " + ",".join(hex(x) for x in extra + missing), f"the markers taken for a JPEG frame header differ from SOF0-SOF15 minus DHT/JPG/DAC: extra {[hex(x) for x in extra]}, missing {[hex(x) for x in missing]} — a Huffman table (0xC4) before the frame header is read as the picture size", line=sets[0][0].lineno))
         loops.append((f, w))
     # the three OOXML copies agree structurally
     ref = None
